@@ -198,7 +198,13 @@ pub fn scenario(rng: &mut Rng) -> Scenario {
     let mut session = 0usize;
     let nblocks = 2 + rng.below(4);
     for _ in 0..nblocks {
-        match rng.below(4) {
+        match rng.below(5) {
+            4 => {
+                // the program reads a line of console input: the prompts that follow read the same standard input
+                t.push_str("mov ah, 1\nint 0x21\n");
+                stdin.extend_from_slice(rng.pick(&["hello", "n", "print reg", "x", "  z  ", "next"]).as_bytes());
+                stdin.push(b'\n');
+            }
             0 => {
                 // change DS between prints
                 ds = match rng.below(3) {
